@@ -61,6 +61,21 @@ CLAIMED.update({
         note="docopt, glob, file I/O and the library calls themselves are exercised only. Mirrored rather than flagged: the `-db.json` fallback is dead code (second candidate is `D_db.json-db.json`), `collect -o x.txt` writes nothing, `tag -f xyz` gives TSV.",
         technique="Lean 4 proofs of decision rules + differential correspondence through the real CLI entry points",
         ref="DESIGN.md §5 C18"),
+    "C11_PENDING": dict(
+        text="Proof (partial): label_programs' relabelling of internal imports and make_db (direct importations, the iterative visited-set closure with a PROVED termination measure, exportations, inverted indexes, sorted spans, record assembly, SQLite rows) are modelled; theorems for every collection, taxonomy oracle and import graph: C11_importations (importations[p] = the unique strictly sorted list of {q | TransGen Imports p q}, cycles and self-imports included), C11_exportations (exact inverse), C11_indexes, C11_spans_sorted, C11_records, C11_sqlite_rows, C11_total (a database is always returned), makeDb_wf and makeDb_filter_wf (the database satisfies the well-formedness the filter theorems C04-C07 assume). Models mirror fixes ca3b9c8 1a46ae2 77a08ea 0c1b93c.",
+        note="Exercised only: the json.dumps + compaction + json.loads round trip and the sqlite3 round trip (the harness compares json.loads(get_json()) and the rows read back with the model's value on generated directories); parser and taxonomy outputs are inputs (recorded from the real run).",
+        technique="Lean 4 proofs (induction, well-founded recursion for the closure, TransGen characterisation) + differential correspondence on generated directories and helper functions",
+        ref="DESIGN.md §5 C11"),
+    "C14": dict(
+        text="Proof (partial): the exception-flow skeleton of list_programs -> labelled_programs -> TagDatabase and of cli_tag.main is modelled with clean / parse / features as ADVERSARIAL parameters returning Except; C14_every_file_reported (whatever the cleaning raises, every file gets a record; an unparsable one the single label ast_construction:<Error>, an empty one EmptyProgramError), C14_clean_raise_fallback, C14_others_unaffected, C14_closure_terminates, C14_tag_reports, C14_collect_ok_iff. Model mirrors fixes c7d362e ca3b9c8 77a08ea 57ac228.",
+        note="Which exception class CPython's tokenizer/parser raises on a given text, and the taxonomy mapping to meta/ast/<Error>, are exercised on a malformed-text stream (truncations, bracket/quote/indent mutations, control characters, NUL bytes, empty files) mixed with valid programs; FeaturesTotal (feature search does not raise) is a hypothesis (cf. design finding 17).",
+        technique="Lean 4 proofs by case analysis over adversarial externals + differential correspondence on directories with malformed files",
+        ref="DESIGN.md §5 C14"),
+    "C03": dict(
+        text="Proof (partial): the per-process shared state (pseudo-hash counter, DerivedLabelsDatabase tables incl. sub-tables and known set, Taxonomy memo with in-place aliasing) is modelled as a state machine with the engines as oracles; C03_invariant (no leftover table, preserved by every step incl. failing ones), C03_output / C03_independent / C03_history (the output of a program equals the pure specification from any reachable state, for all sequences with repeats), C03_leak_breaks, C03_collection (a record depends only on the program text and on which imported module names are collected).",
+        note="SQLite answers, interpreter hash randomisation and the feature regexes are exercised only: sequences of programs through ONE parser/taxonomy compared with fresh instances and with the model's state observables; sub-collections; two collect runs in subprocesses with different PYTHONHASHSEED must be byte-identical.",
+        technique="Lean 4 invariant + refinement proofs over operation sequences + state-observable correspondence",
+        ref="DESIGN.md §5 C03"),
 })
 PENDING_REASON = "not claimed yet: model/theorems/correspondence for this property are still under construction (see DESIGN.md §5/§9)"
 
@@ -69,6 +84,8 @@ def main():
     props = [json.loads(l) for l in open(VERIF / "properties.jsonl", encoding="utf-8")]
     checks = []
     for pid, c in CLAIMED.items():
+        if pid.endswith("_PENDING"):
+            continue
         checks.append({
             "property_id": pid,
             "quick_cmd": f"./check {pid} --tier quick",
@@ -93,7 +110,7 @@ def main():
         "engines": [{
             "name": "lean4-proof+correspondence",
             "path": "lean/ + translator/ + harness/",
-            "serves_properties": list(CLAIMED),
+            "serves_properties": [p for p in CLAIMED if not p.endswith("_PENDING")],
             "kind_free_text": "Lean 4 models, specifications and theorems (lake project lean/), tied to /repo by a translator (translator/gen.py regenerates lean/Paroxy/Gen on every run) and by a differential correspondence harness (harness/, compiled driver lean/Driver)",
         }],
         "checks": checks,
